@@ -51,6 +51,15 @@ func WarpTargetFullType(targetType string) (string, string) {
 		}
 	}
 
+	// without an import, a simple name means the class of the own package before a class of
+	// that name in any other package
+	for _, clz := range clzs {
+		if clz == currentPkg+"."+pureTargetType {
+			callType = "same package"
+			return clz, callType
+		}
+	}
+
 	for _, clz := range clzs {
 		if strings.HasSuffix(clz, "."+pureTargetType) {
 			callType = "same package"
